@@ -872,6 +872,35 @@ def c05_scripts(rng, tier):
                     o["out_fill"] = "garbage"
                 ops.append(o)
         S.append(ops)
+    # ... and the same for the sinc types with a LARGE construction-time chunk that some instances lower to a few
+    # frames in mid-stream, on signals with exact silence (state sized for the construction-time chunk and
+    # short-cuts on silence - seeded change C05h)
+    for _ in range(n_gen // 2):
+        r = rng.choice([Fraction(1), Fraction(2), Fraction(1, 2), Fraction(1)])
+        L = rng.choice([16, 64, 128])
+        base = {"op": "new", "T": rng.choice([32, 64]), "ch": rng.choice([1, 2]), "r": gen.rj(r),
+                "maxrel": gen.rj(Fraction(2)), "signal": "burst", "seed": 13, "blk": 16,
+                "seg": rng.choice([300, 700, 1500]), "L": L, "F": rng.choice([2, 16, 128]),
+                "interp": rng.choice(gen.INTERPS), "probe": "dispatch", "window": rng.choice(gen.WINDOWS)}
+        if base["F"] == 1:
+            base["F"] = 2
+        kind = rng.choice(["SincFixedIn", "SincFixedIn", "SincFixedOut"])
+        insts = [dict(base, kind=kind, chunk=rng.choice([256, 1024])) for _i in range(3)]
+        ops = [with_id(n, i) for i, n in enumerate(insts)]
+        for i in range(1, len(insts)):
+            ops.append({"op": "note", "twin": "blocks", "a": 0, "b": i})
+        want_out = 5000
+        for i, n in enumerate(insts):
+            produced, cur = 0, n["chunk"]
+            lowered_at = rng.choice([600, 1500, 2500]) if i > 0 else None
+            while produced < want_out:
+                if lowered_at is not None and produced >= lowered_at:
+                    cur = rng.choice([8, 16, 32, 64])
+                    ops.append({"op": "set_chunk", "id": i, "n": cur})
+                    lowered_at = None
+                ops.append({"op": "process", "id": i})
+                produced += max(1, int(cur * float(r))) if kind.endswith("In") else cur
+        S.append(ops)
     return S
 
 
